@@ -225,6 +225,21 @@ def eval_op(op, args, sizes, size):
         return 1 if to_signed(args[0], n) < to_signed(args[1], n) else 0
     if op == '<=s':
         return 1 if to_signed(args[0], n) <= to_signed(args[1], n) else 0
+    if op in ('bcdadd', 'bcdadd_cf'):
+        # packed-BCD addition of two 4-digit numbers; unspecified for invalid digits
+        if n != 16:
+            raise Unsupported("bcdadd width")
+        digs = []
+        for v in args:
+            ds = [(v >> (4 * i)) & 0xf for i in range(4)]
+            if any(d > 9 for d in ds):
+                raise Undef("invalid BCD digit")
+            digs.append(ds[0] + 10 * ds[1] + 100 * ds[2] + 1000 * ds[3])
+        s = digs[0] + digs[1]
+        if op == 'bcdadd_cf':
+            return 1 if s >= 10000 else 0
+        s %= 10000
+        return (s % 10) | ((s // 10 % 10) << 4) | ((s // 100 % 10) << 8) | ((s // 1000) << 12)
     # ---- flags, by arithmetic definition
     if op == 'FLAG_EQ':
         return 1 if args[0] == 0 else 0
